@@ -51,12 +51,14 @@ def _else(lv, body):
 
 
 def _arm(lv, body):
-    return [], ["def cm%d := 1" % lv, "match cm%d" % lv, IND + "1 =>"] + indent(body, 2) + [IND + "_ =>", IND * 2 + 'print("other arm")']
+    # every arm ends in a unit statement: a match that is the last statement of an enclosing arm is
+    # checked as an expression, whose arms must agree on a type - a rule of its own, not the one under test
+    return [], ["def cm%d := 1" % lv, "match cm%d" % lv, IND + "1 =>"] + indent(body, 2) + [IND * 2 + 'print("arm end")', IND + "_ =>", IND * 2 + 'print("other arm")']
 
 
 def _harm(lv, body):
     pre = ["class CtxE%d(msg: Str): Exception(msg)" % lv, "def ctxr%d(n: Int) -> Int raise [CtxE%d] =>" % (lv, lv), IND + "if n > 0 then", IND * 2 + 'raise CtxE%d("ctx")' % lv, IND + "n"]
-    return pre, ["ctxr%d(1) handle" % lv, IND + "cex%d: CtxE%d =>" % (lv, lv)] + indent(body, 2)
+    return pre, ["ctxr%d(1) handle" % lv, IND + "cex%d: CtxE%d =>" % (lv, lv)] + indent(body, 2) + [IND * 2 + 'print("arm end")']
 
 
 CONTEXTS = [Ctx("top", _top), Ctx("fun", _fun), Ctx("method", _method), Ctx("for", _for), Ctx("while", _while),
